@@ -67,16 +67,20 @@ impl_lerp_for_integer_types! { i8, i16, i32, i64, u8, u16, u32, u64, usize }
 
 impl Lerp for f32 {
     fn lerp(&self, y1: &Self, x: f32) -> Self {
-        self * (1.0 - x) + y1 * x
+        // The weights sum to one, but an easing that overshoots makes one of them larger than one
+        // (`x` = 1.1, or -0.1), and the corresponding product alone can exceed the `f32` range
+        // although the sum does not: two keyframes that both hold `f32::MAX` gave infinity. The
+        // products are formed and added in `f64`, where they cannot overflow, and the sum is
+        // rounded once.
+        let x = x as f64;
+        (*self as f64 * (1.0 - x) + *y1 as f64 * x) as f32
     }
 }
 
 impl Lerp for f64 {
     fn lerp(&self, y1: &Self, x: f32) -> Self {
-        // Converting `x` to `f64` and doing the entire computation as f64 should be a lot more
-        // accurate, yet somehow consistently produces worse results in the `lerp_wider_type` test.
-        // TODO: Investigate this.
-        (*self as f32 * (1.0 - x) + *y1 as f32 * x) as f64
+        // Interpolated as `f32` values, as documented for wider types.
+        (*self as f32).lerp(&(*y1 as f32), x) as f64
     }
 }
 
